@@ -17,7 +17,9 @@ def deep_search(work, res, tier, proofs_ok):
 
 
 CHECK = generic("C05", [dict(harness="heap", area="heap"), dict(harness="skiplist", area="skiplist"),
-                        dict(harness="heap", area="pqptr", name="heap-pqptr")], extra=deep_search, pregen=steps.pregen_pqgo)
+                        dict(harness="heap", area="pqptr", name="heap-pqptr"),
+                        dict(harness="skiplist", area="skptr", name="skiplist-skptr")], extra=deep_search,
+                pregen=lambda work: steps.pregen_pqgo(work) or steps.pregen_sk(work))
 
 MANIFEST = dict(
     text=("Props/C05PQ.lean: internal/queue/priority_queue.go is translated on every run (harness/minigopq) into a deep embedding whose interpreter has "
@@ -26,6 +28,11 @@ MANIFEST = dict(
           "through the aliased slice), Peek, Len, Cap, IsBoundless (c05_pq_new_refines, c05_pq_step_refines) - and, for a lawful comparator and a "
           "well-formed queue, never to panic, get stuck or run out of fuel (c05_pq_step_refines_wf); the translated program is run against the real "
           "queue on every heap trace (area pqptr: results, Len, the whole heap array and the slice capacity). "
+          "Props/C05SK.lean: internal/list/skip_list.go is translated on every run (harness/minigosk; interpreter Ekit/MiniGo/LangSK.lean with forward arrays, "
+          "the by-value update array and the coin stream of randomLevel as an oracle) and replayed against the real skip list on every trace (area skptr: "
+          "results, AsSlice, Len, tower heights, level, every level chain); proved about the translation: the constructor, randomLevel = min(n+1, MaxLevel) "
+          "for every coin stream, traverse's loops computing the model's scan, Search/Get/Peek/Len composed with the c05_sl_* theorems (c05_sk_*); "
+          "the simulation of the translated Insert and DeleteElement is NOT proved (replay only). "
           "Theorems in Lean 4 (Ekit/Props/C05.lean) for ANY comparator that is a total preorder (ties allowed). "
           "Priority queue (model = 1-based array with slot 0, append + the sift-up loop, move-last-to-root + slice.Shrink via "
           "calCapacity + the heapify loop, every index read partial): the heap invariant and the capacity bookkeeping are preserved "
